@@ -88,7 +88,7 @@ class FileHeaderItem(EFLRItem):
         bts += get_ascii_bytes(str(self.sequence_number), 10, justify_left=False)
         bts += pack_ushort(int('00100001', 2))
         bts += pack_ushort(65)
-        bts += get_ascii_bytes(self.header_id, 65, justify_left=True)
+        bts += get_ascii_bytes(validate_string(self.header_id), 65, justify_left=True)
 
         return bts
 
